@@ -365,7 +365,13 @@ func (s *Session) Churn(nNodes, nSpare, steps int) {
 				ids = append(ids, low, high)
 				s.Do("new", U(low))
 				s.Do("new", U(high))
-				s.Do("reqjoinjoin", U(Pick(rng, members)), U(low), U(high), U(Pick(rng, members)))
+				if res := s.Do("reqjoinjoin", U(Pick(rng, members)), U(low), U(high), U(Pick(rng, members))); strings.HasPrefix(res, "ok:") {
+					// (never on a tree where the property holds) the request was granted: release the lock as the
+					// joiner would, so that the ring keeps serving and the reads below see what it serves
+					for _, m := range members {
+						s.Do("finish", U(m), "false", "true")
+					}
+				}
 				if st := s.StateName(high); st == "Active" {
 					members = append(members, high)
 				}
